@@ -105,6 +105,81 @@ def etagDir (cacheFile : Text) : Text := cacheDirFromFile cacheFile
 def etagExt (cacheFile : Text) : Text :=
   if hasSuffix cacheFile (T "APKINDEX.tar.gz") then T ".tar.gz" else T ".etag"
 
+/-! ### the package cache entry (`cacheDirForPackage`, `expandPackage`, `cachePackage`, `cachedPackage`) -/
+
+/-- what follows the last separator -/
+def lastSeg (p : Text) : Text := (p.reverse.takeWhile (· ≠ '/')).reverse
+
+/-- `filepath.Ext`: the suffix of the last element starting at its last `.` (empty when there is none) -/
+def ext (p : Text) : Text :=
+  let seg := lastSeg p
+  if '.' ∈ seg then '.' :: (seg.reverse.takeWhile (· ≠ '.')).reverse else []
+
+/-- `strings.TrimSuffix` -/
+def trimSuffix (s suf : Text) : Text :=
+  if hasSuffix s suf then (s.reverse.drop suf.length).reverse else s
+
+/-- `cacheDirForPackage(root, pkg)` with `path`, `esc` of `packageAsURL(pkg)` as in `cachePathFromURL`;
+`none`: the URL is rejected or "unexpected ext" -/
+def cacheDirForPackage (root path esc : Text) : Option Text :=
+  match cachePathFromURL root path esc with
+  | none => none
+  | some p => if ext p = T ".apk" then some (trimSuffix p (T ".apk")) else none
+
+/-- what an index entry or a lock-file entry says about a package, verbatim (nothing of it is vetted before it
+gets here): the URL (as `url.Parse(packageAsURL(pkg))` splits it: path, and the escaped repository part), the
+package name, the checksum string, and the fields that only the index has -/
+structure PkgRec where
+  urlPath : Text := []
+  urlEsc : Text := []
+  name : Text := []
+  version : Text := []
+  arch : Text := []
+  origin : Text := []
+  checksum : Text := []
+  deriving DecidableEq, Repr, Inhabited
+
+/-- `cacheDirForPackage(root, pkg)` on a package record: the URL is the only field the entry is derived from -/
+def cacheDirForPkg (root : Text) (pkg : PkgRec) : Option Text := cacheDirForPackage root pkg.urlPath pkg.urlEsc
+
+def hexDigits : List Char := ['0','1','2','3','4','5','6','7','8','9','a','b','c','d','e','f']
+
+/-- `hex.EncodeToString` -/
+def hexEncode : List Nat → Text
+  | [] => []
+  | b :: rest => hexDigits.getD (b / 16 % 16) '0' :: hexDigits.getD (b % 16) '0' :: hexEncode rest
+
+/-- the suffixes of the files of one package entry (`cachePackage` / `cachedPackage`; `.dat.tar` is
+`strings.TrimSuffix(<dat>, ".gz")`, regenerated by `PackageData` through `<dat.tar>.<random>.tmp`) -/
+def pkgEntrySuffixes : List Text := [T ".ctl.tar.gz", T ".sig.tar.gz", T ".dat.tar.gz", T ".dat.tar"]
+
+/-- `filepath.Join(cacheDir, <hex>+suffix)` -/
+def pkgEntryFile (cacheDir hexName suffix : Text) : Text := join2 cacheDir (hexName ++ suffix)
+
+/-- every host path the package route of the cache names for one package: the entry directory
+(`os.MkdirAll`, `os.MkdirTemp(cacheDir, "expand-apk")`), then the advertised files of `cachePackage`
+(control hash `ctl`, data hash `dat` — both `hex.EncodeToString` of digests apko computed itself) -/
+def pkgCacheWrites (root : Text) (pkg : PkgRec) (ctl dat : List Nat) : Option (List Text) :=
+  match cacheDirForPkg root pkg with
+  | none => none
+  | some d => some (d :: [pkgEntryFile d (hexEncode ctl) (T ".ctl.tar.gz"), pkgEntryFile d (hexEncode ctl) (T ".sig.tar.gz"),
+      pkgEntryFile d (hexEncode dat) (T ".dat.tar.gz"), pkgEntryFile d (hexEncode dat) (T ".dat.tar")])
+
+/-- `cachedPackage`: the data section is looked up under the `datahash` string of the cached control section's
+`.PKGINFO` — a string, not a digest apko computed -/
+def pkgDatFile (cacheDir datahash : Text) : Text := pkgEntryFile cacheDir datahash (T ".dat.tar.gz")
+
+/-! ### output files named after the architecture -/
+
+/-- `filepath.Join(s.OutputDir, "sbom-"+arch+"."+ext)` (`GenerateImageSBOM`) -/
+def sbomFile (outDir arch extn : Text) : Text := join2 outDir (T "sbom-" ++ arch ++ T "." ++ extn)
+
+/-- `filepath.Join(o.TempDir(), "apko-"+arch+".tar.gz")` (`TarballFileName`) -/
+def layerTarFile (tmpDir arch : Text) : Text := join2 tmpDir (T "apko-" ++ arch ++ T ".tar.gz")
+
+/-- `filepath.Join(wd, arch)`: the per-architecture working directory of `apko lock` / `show-packages` / `dot` -/
+def archWorkDir (wd arch : Text) : Text := join2 wd arch
+
 /-! ### base32 (`encoding/base32.StdEncoding`, RFC 4648 with `=` padding) -/
 
 def b32Alphabet : List Char :=
